@@ -43,7 +43,11 @@ def run(tier, seed):
     from contracts.stats_c import stats_contract
     from pyvc.runner import run_contracts
 
-    run_contracts(rep, [stats_contract()])
+    from contracts.regalloc_u import symbol_body_contract
+
+    # "none of which is missing from the count": every register handed out by the symbol loop of assign_registers is added
+    # to the scope's used set (the same block contract as in C04)
+    run_contracts(rep, [stats_contract(), symbol_body_contract()])
     replay_known(rep, "C17")
     q = tier == "quick"
     run_bounded(rep, "C17", [("general", {}, "calls", 800 if q else 15000), ("state-only", {"modules": True, "state_only": True}, "modules", 150 if q else 2000), ("modules", {"modules": True, "collide": False}, "modules-rl", 600 if q else 8000),
